@@ -41,6 +41,10 @@ impl Service<Req> for CountInner {
         g.next_serial += 1;
         let serial = g.next_serial;
         g.calls.push((req.key, serial));
+        // (requests with an id of 100 and more fail: errors are not stored)
+        if req.id >= 100 {
+            return std::future::ready(Err(InnerErr { id: serial, kind: 0 }));
+        }
         std::future::ready(Ok(Resp { serial, req: req.id, key: req.key }))
     }
 }
@@ -72,6 +76,10 @@ fn pname(p: EvictionPolicy) -> &'static str {
 }
 
 fn lookup(svc: &Svc, key: u8) -> i64 {
+    lookup_as(svc, key, key as u32)
+}
+
+fn lookup_as(svc: &Svc, key: u8, id: u32) -> i64 {
     let mut s = svc.clone();
     let waker = ilv::noop_waker();
     let mut cx = Context::from_waker(&waker);
@@ -79,7 +87,7 @@ fn lookup(svc: &Svc, key: u8) -> i64 {
         Poll::Ready(Ok(())) => {}
         _ => return -9,
     }
-    let mut fut = Box::pin(s.call(Req::new(key as u32, key)));
+    let mut fut = Box::pin(s.call(Req::new(id, key)));
     match fut.as_mut().poll(&mut cx) {
         Poll::Ready(Ok(r)) => {
             if r.key == key {
@@ -230,4 +238,106 @@ pub fn replay(label: &str, choices: &[usize], kind: &str) -> Option<bool> {
         }
     }
     None
+}
+
+
+// ---------------------------------------------------------------------------------------
+// an expired entry looked up by two threads at once
+
+/// One key, TTL 20 ms. The entry is stored at 0 ms, the clock (shared by the threads, see
+/// trv_core::clock::shared_*) then stands at 30 ms: the entry has expired. Thread A looks the
+/// key up with a request whose inner call fails (nothing is stored), thread B with one whose
+/// inner call succeeds (its response is stored, unexpired). Whatever the interleaving of the
+/// store's critical sections, the returns and a final lookup (must hit B's response unless B
+/// itself hit) are those of some one-at-a-time order.
+pub struct Expired {
+    svcs: [Svc; 2],
+    log: Arc<Mutex<Log>>,
+}
+
+fn expired_spec() -> Spec<Expired, i64> {
+    let a: OpFn<Expired, i64> = Arc::new(|s: &Expired| lookup_as(&s.svcs[0], 0, 100));
+    let b: OpFn<Expired, i64> = Arc::new(|s: &Expired| lookup_as(&s.svcs[1], 0, 1));
+    Spec {
+        name: "cache threads policy=lru max_size=2 ttl=20ms: an expired entry, two lookups of its key at once (one inner call fails)".to_string(),
+        make: Arc::new(|| {
+            trv_core::clock::shared_enable();
+            trv_core::clock::shared_set_ms(0);
+            let log = Arc::new(Mutex::new(Log::default()));
+            let layer = CacheLayer::<Req, trv_core::inner::WeakKey>::builder().max_size(2).ttl(std::time::Duration::from_millis(20)).eviction_policy(EvictionPolicy::Lru).key_extractor(|r: &Req| trv_core::inner::WeakKey(r.key)).build();
+            let x = layer.layer(CountInner { log: log.clone() });
+            let y = x.clone();
+            let first = lookup_as(&x, 0, 0);
+            assert!(first > 0, "setup: the first lookup stores the entry");
+            trv_core::clock::shared_set_ms(30);
+            Expired { svcs: [x, y], log }
+        }),
+        threads: vec![vec![("get(key 0), inner fails".to_string(), a)], vec![("get(key 0), inner ok".to_string(), b)]],
+        install_hook: Arc::new(|| {
+            trv_core::clock::shared_enable();
+            tower_resilience_core::verif::set_yield_hook(Some(Box::new(|op| ilv::yield_point(op))))
+        }),
+        uninstall_hook: Arc::new(|| {
+            tower_resilience_core::verif::set_yield_hook(None);
+            trv_core::clock::shared_disable();
+        }),
+        step_check: Arc::new(|_s: &Expired| None),
+        spurious: false,
+    }
+}
+
+fn expired_observe(s: &Expired) -> String {
+    format!("inner_calls={}", s.log.lock().unwrap().calls.len())
+}
+
+/// (Lookup and store are separate critical sections by design, so whole lookups are not
+/// linearizable and are not compared with one-at-a-time orders. What must hold: thread B's
+/// inner call succeeded and its response was stored last - nothing was stored after it, A's
+/// inner call failed - so a final lookup hits exactly that response.)
+fn expired_extra(x: &ilv::Execution<i64>, s: &Expired) -> Vec<(String, String)> {
+    let mut v = vec![];
+    let b = x.returns[1].first().copied().unwrap_or(-9);
+    let a = x.returns[0].first().copied().unwrap_or(-9);
+    if b <= 0 {
+        v.push(("lookup_failed".to_string(), format!("thread B's lookup ended with code {b}")));
+        return v;
+    }
+    trv_core::clock::shared_enable();
+    let n0 = s.log.lock().unwrap().calls.len();
+    let r = lookup_as(&s.svcs[0], 0, 2);
+    let n1 = s.log.lock().unwrap().calls.len();
+    if n1 != n0 {
+        v.push(("stored_response_lost".to_string(), format!("thread B stored response {b} for the key (thread A's lookup returned {a}); nothing was stored after it and it has not expired, but a final lookup missed and called the inner service")));
+    } else if r != b && a != r {
+        v.push(("hit_with_a_response_never_stored_for_the_key".to_string(), format!("final lookup hit {r}; thread B stored {b}, thread A returned {a}")));
+    }
+    if a == -2 {
+        v.push(("witness:expired_entry_met_by_two_threads".to_string(), String::new()));
+    }
+    v
+}
+
+pub fn run_expired(tier: Tier, rep: &mut Report) {
+    let spec = expired_spec();
+    let c = LinCheck {
+        property: "C10",
+        site: "cache_threads_expired_entry",
+        label: spec.name.clone(),
+        spec: &spec,
+        bounds: tier.pick(vec![Some(0), Some(1), Some(2)], vec![Some(0), Some(1), Some(2), Some(3), None]),
+        max_schedules: 100_000,
+        observe: &expired_observe,
+        extra: &expired_extra,
+        linearizable: false,
+    };
+    ilv::check_linearizable(&c, rep);
+    trv_core::clock::shared_disable();
+}
+
+pub fn replay_expired(choices: &[usize], kind: &str) -> bool {
+    let spec = expired_spec();
+    let c = LinCheck { property: "C10", site: "cache_threads_expired_entry", label: spec.name.clone(), spec: &spec, bounds: vec![None], max_schedules: 100_000, observe: &expired_observe, extra: &expired_extra, linearizable: false };
+    let r = ilv::replay_schedule(&c, choices, kind);
+    trv_core::clock::shared_disable();
+    r
 }
